@@ -293,8 +293,8 @@ type liveStore struct {
 
 // countPumps counts the goroutines running a watcher stream's pump (pkg/store newStream).
 func countPumps() int {
-	buf := make([]byte, 1<<20)
-	n := runtime.Stack(buf, true)
+	buf := allStacks()
+	n := len(buf)
 	return strings.Count(string(buf[:n]), "pkg/store.newStream.func")
 }
 
